@@ -78,6 +78,10 @@ func (this *Hnsw) BytesSize() uint64 {
 }
 
 func (this *Hnsw) Insert(id uuid.UUID, value math.Vector, metadata Metadata, vertexLevel int) error {
+	if err := metadata.Validate(); err != nil {
+		return err
+	}
+
 	var vertex *hnswVertex
 	if (*hnswVertex)(atomic.LoadPointer(&this.entrypoint)) == nil {
 		vertex = newHnswVertex(id, value, metadata, 0)
